@@ -97,9 +97,13 @@ type c02PreENI struct {
 }
 
 type c02Slot struct {
-	ERDMA   bool `json:"erdma,omitempty"`
-	HostNet bool `json:"host_net,omitempty"`
-	PodENI  bool `json:"pod_eni,omitempty"`
+	ERDMA bool `json:"erdma,omitempty"`
+	// container layout of an RDMA pod: which regular / init containers carry the
+	// aliyun/erdma limit (empty: one container that carries it)
+	RDMACont []bool `json:"rdma_cont,omitempty"`
+	RDMAInit []bool `json:"rdma_init,omitempty"`
+	HostNet  bool   `json:"host_net,omitempty"`
+	PodENI   bool   `json:"pod_eni,omitempty"`
 }
 
 type c02Op struct {
@@ -353,6 +357,54 @@ func c02GenOp(t *rapid.T, mode string, n c02Node, nSlots int) c02Op {
 	return o
 }
 
+// c02GenRDMALayout draws the containers of an RDMA pod: 1..3 regular and 0..2 init
+// containers, the aliyun/erdma limit on a non-empty subset of them. Over-weighted: only the
+// first container, only an init container, every container but the last.
+func c02GenRDMALayout(t *rapid.T) (cont, init []bool) {
+	cont = make([]bool, rapid.IntRange(1, 3).Draw(t, "ncont"))
+	init = make([]bool, rapid.IntRange(0, 2).Draw(t, "ninit"))
+	switch rapid.SampledFrom([]string{"first", "first", "init", "init", "notlast", "notlast", "all", "random"}).Draw(t, "rdma_layout") {
+	case "first":
+		cont[0] = true
+		if len(cont) == 1 {
+			cont = append(cont, false) // a sidecar without the limit comes last
+		}
+	case "init":
+		if len(init) == 0 {
+			init = []bool{false}
+		}
+		init[rapid.IntRange(0, len(init)-1).Draw(t, "which_init")] = true
+	case "notlast":
+		if len(cont) == 1 {
+			cont = append(cont, false)
+		}
+		for i := 0; i < len(cont)-1; i++ {
+			cont[i] = true
+		}
+	case "all":
+		for i := range cont {
+			cont[i] = true
+		}
+		for i := range init {
+			init[i] = true
+		}
+	default:
+		any := false
+		for i := range cont {
+			cont[i] = rapid.Bool().Draw(t, "cont_limit")
+			any = any || cont[i]
+		}
+		for i := range init {
+			init[i] = rapid.Bool().Draw(t, "init_limit")
+			any = any || init[i]
+		}
+		if !any {
+			cont[0] = true
+		}
+	}
+	return cont, init
+}
+
 func c02GenLoop(mode string) func(t *rapid.T) c02Scenario {
 	return func(t *rapid.T) c02Scenario {
 		s := c02Scenario{Mode: mode}
@@ -361,6 +413,9 @@ func c02GenLoop(mode string) func(t *rapid.T) c02Scenario {
 		for i := 0; i < nSlots; i++ {
 			sl := c02Slot{}
 			sl.ERDMA = s.Node.ERDMA && rapid.IntRange(0, 3).Draw(t, "slot_erdma") == 0
+			if sl.ERDMA {
+				sl.RDMACont, sl.RDMAInit = c02GenRDMALayout(t)
+			}
 			sl.HostNet = rapid.IntRange(0, 11).Draw(t, "slot_hostnet") == 0
 			sl.PodENI = rapid.IntRange(0, 11).Draw(t, "slot_podeni") == 0
 			s.Slots = append(s.Slots, sl)
@@ -621,7 +676,26 @@ func (w *c02World) createPod(slot int, v4, v6 string) *c02LivePod {
 		pod.Annotations = map[string]string{types.PodENI: "true"}
 	}
 	if sl.ERDMA {
-		pod.Spec.Containers[0].Resources.Limits = corev1.ResourceList{corev1.ResourceName(deviceplugin.ERDMAResName): resource.MustParse("1")}
+		lim := corev1.ResourceList{corev1.ResourceName(deviceplugin.ERDMAResName): resource.MustParse("1")}
+		cont, init := sl.RDMACont, sl.RDMAInit
+		if len(cont) == 0 {
+			cont = []bool{len(init) == 0}
+		}
+		pod.Spec.Containers = nil
+		for i, has := range cont {
+			ct := corev1.Container{Name: fmt.Sprintf("c%d", i), Image: "i"}
+			if has {
+				ct.Resources.Limits = lim.DeepCopy()
+			}
+			pod.Spec.Containers = append(pod.Spec.Containers, ct)
+		}
+		for i, has := range init {
+			ct := corev1.Container{Name: fmt.Sprintf("init%d", i), Image: "i"}
+			if has {
+				ct.Resources.Limits = lim.DeepCopy()
+			}
+			pod.Spec.InitContainers = append(pod.Spec.InitContainers, ct)
+		}
 	}
 	if v4 != "" || v6 != "" {
 		pod.Status.Phase = corev1.PodRunning
@@ -689,10 +763,11 @@ func (w *c02World) podViews() map[string]*c02PodView {
 		v := &c02PodView{id: p.Namespace + "/" + p.Name, uid: string(p.UID)}
 		v.eligible = !p.Spec.HostNetwork && !types.PodUseENI(p) && p.Status.Phase != corev1.PodSucceeded && p.Status.Phase != corev1.PodFailed
 		if w.s.Node.ERDMA {
-			for _, ct := range p.Spec.Containers {
-				if q, ok := ct.Resources.Limits[corev1.ResourceName(deviceplugin.ERDMAResName)]; ok && !q.IsZero() {
-					v.erdma = true
-				}
+			// "is an RDMA pod" by the harness's own intent: the slot was created as one
+			// (some container, regular or init, asks for aliyun/erdma)
+			var slot int
+			if _, err := fmt.Sscanf(p.Name, "p%d", &slot); err == nil && slot < len(w.s.Slots) {
+				v.erdma = w.s.Slots[slot].ERDMA
 			}
 		}
 		for _, ip := range append([]corev1.PodIP{{IP: p.Status.PodIP}}, p.Status.PodIPs...) {
